@@ -1,6 +1,6 @@
 SPECIFICATION Spec
 CONSTANTS
-  Alphabet = {"lt", "gt", "slash", "qmark", "bang", "eq", "dq", "sp", "nl", "x", "nul"}
+  Alphabet = {"lt", "gt", "slash", "bang", "qmark", "dash", "eq", "dq", "sq", "lb", "rb", "sp", "nl", "x", "nul"}
   MaxLen = 5
   Emit = TRUE
   VoidClosesTag = TRUE
